@@ -28,6 +28,21 @@ NEW_CALL = '''            if (
             ):
 '''
 
+ASYNC_BLOCK = '''                mark = _Mark(flow, id(instance))
+
+                # ExitStack is not used here due to performance.
+                #
+                # The mark is registered inside the try-block: an interrupt (*e.g.*, KeyboardInterrupt) which arrives
+                # right after the registration must not leave the mark active for good.
+                try:
+                    _IN_PROGRESS.set(in_progress | {mark})
+
+                    for invariant in invariants:
+                        _assert_invariant(contract=invariant, instance=instance)
+
+                    result = await func(*args, **kwargs)
+'''
+
 DEFS = {
     # ---------------------------------------------------------------------------------------------- meta-class
     "seeded/C02_r2_postconditions_deduplicated_by_location": [
@@ -108,16 +123,17 @@ DEFS = {
     ],
     # ---------------------------------------------------------------------------------------------- __new__ wrapper
     "seeded/C03_r3_new_wrapper_tests_requested_class": [
-        (CHK, "        try:\n" + NEW_CALL,
+        (CHK, "        mark = None  # type: Optional[_Mark]\n        if len(args) > 0 and not nested:\n",
          '''        # Determine only once whether the class which is being instantiated defines a constructor.
         has_init = (
             len(args) > 0
             and getattr(args[0], "__init__", object.__init__) is not object.__init__
         )
 
-        try:
-            if new_func is object.__new__ and has_init:
+        mark = None  # type: Optional[_Mark]
+        if len(args) > 0 and not nested:
 '''),
+        (CHK, NEW_CALL, "            if new_func is object.__new__ and has_init:\n"),
         (CHK, '''        if instance.__class__.__init__ is not object.__init__:
             # The object is complete only once __init__ has run; the wrapper around __init__ checks the invariants.
 ''', '''        if has_init:
@@ -141,7 +157,10 @@ DEFS = {
 ''', ""),
     ],
     "mutants/c03_fix_nested_new_reverted": [
-        (CHK, "        nested = len(args) > 0 and _is_in_progress(in_progress, flow, id(args[0]))\n", "        nested = False\n"),
+        (CHK, "                    nested = True\n                    break\n", "                    break\n"),
+    ],
+    "mutants/c03_fix_sibling_new_reverted": [
+        (CHK, "                    and other.owner is not wrapper\n", ""),
     ],
     # ---------------------------------------------------------------------------------------------- checker wrappers
     "seeded/C10_r2_sync_capture_outside_suspension": [
@@ -297,6 +316,77 @@ DEFS = {
                 if cls.__module__ != __name__:
                     _register_for_hypothesis(cls)
 """, 2),
+    ],
+    "mutants/c11_fix_mark_registered_inside_try_reverted": [
+        # the sync method wrapper registers its mark before the try-block again
+        (CHK, """                mark = _Mark(flow, id(instance))
+
+                # ExitStack is not used here due to performance.
+                #
+                # The mark is registered inside the try-block: an interrupt (*e.g.*, KeyboardInterrupt) which arrives
+                # right after the registration must not leave the mark active for good.
+                try:
+                    _IN_PROGRESS.set(in_progress | {mark})
+
+                    for invariant in invariants:
+                        _assert_invariant(contract=invariant, instance=instance)
+
+                    result = func(*args, **kwargs)
+""", """                mark = _Mark(flow, id(instance))
+                _IN_PROGRESS.set(in_progress | {mark})
+
+                # ExitStack is not used here due to performance.
+                try:
+                    for invariant in invariants:
+                        _assert_invariant(contract=invariant, instance=instance)
+
+                    result = func(*args, **kwargs)
+"""),
+    ],
+    "mutants/c13_async_inv_no_before_check": [
+        (CHK, """                    _IN_PROGRESS.set(in_progress | {mark})
+
+                    for invariant in invariants:
+                        _assert_invariant(contract=invariant, instance=instance)
+
+                    result = await func(*args, **kwargs)
+""", """                    _IN_PROGRESS.set(in_progress | {mark})
+
+                    result = await func(*args, **kwargs)
+"""),
+    ],
+    "seeded/C03_r5_async_pre_check_outside_try": [
+        (CHK, ASYNC_BLOCK, """                mark = _Mark(flow, id(instance))
+                _IN_PROGRESS.set(in_progress | {mark})
+
+                for invariant in invariants:
+                    _assert_invariant(contract=invariant, instance=instance)
+
+                # ExitStack is not used here due to performance.
+                try:
+                    result = await func(*args, **kwargs)
+"""),
+    ],
+    "seeded/C11_ctor_body_outside_try": [
+        (CHK, """            mark = _Mark(flow, id(instance))
+
+            # ExitStack is not used here due to performance.
+            #
+            # The mark is registered inside the try-block: an interrupt (*e.g.*, KeyboardInterrupt) which arrives
+            # right after the registration must not leave the mark active for good.
+            try:
+                _IN_PROGRESS.set(in_progress | {mark})
+
+                result = func(*args, **kwargs)
+
+""", """            mark = _Mark(flow, id(instance))
+            _IN_PROGRESS.set(in_progress | {mark})
+
+            result = func(*args, **kwargs)
+
+            # ExitStack is not used here due to performance.
+            try:
+"""),
     ],
     # ---------------------------------------------------------------------------------------------- decorator source
     "mutants/c07_fix_under_indented_decorator_line_reverted": [
